@@ -1313,7 +1313,7 @@ class Scene(Geometry3D):
 
             # Convert all 2D paths to 3D paths
             for geom_name in result.geometry:
-                if result.geometry[geom_name].vertices.shape[1] == 2:
+                if hasattr(result.geometry[geom_name], "to_3D"):
                     result.geometry[geom_name] = result.geometry[geom_name].to_3D()
 
             for key in result.graph.nodes_geometry:
@@ -1366,7 +1366,7 @@ class Scene(Geometry3D):
                 # transform for geometry
                 new_geom = np.dot(scale_3D, original)
 
-                if result.geometry[geometry].vertices.shape[1] == 2:
+                if hasattr(result.geometry[geometry], "to_3D"):
                     # if our scene is 2D only scale in 2D
                     result.geometry[geometry].apply_transform(scale_2D)
                 else:
